@@ -74,7 +74,7 @@ inductive Op where
   | dropfut (t : Tid)
   deriving DecidableEq, Repr
 
-def step (s : State) : Op → State × Obs
+def step (oneRtt : Bool) (s : State) : Op → State × Obs
   | .poll _ w =>
     match s with
     | .pending (some old) => if old != w then (s, ⟨.panic, []⟩) else (.pending (some w), ⟨.pending, []⟩)
@@ -88,14 +88,16 @@ def step (s : State) : Op → State × Obs
   | .invalid =>
     match s with
     | .pending w => (.invalid, ⟨.none, takeWake w⟩)
-    | _ => (.invalid, ⟨.none, []⟩)
+    | .ready => (.invalid, ⟨.none, []⟩)
+    -- `KeysState::invalid`: `Invalid => None`; `ArcOneRttKeys::invalid`: `Invalid => unreachable!()`
+    | .invalid => if oneRtt then (s, ⟨.panic, []⟩) else (.invalid, ⟨.none, []⟩)
   | .dropfut _ => (s, ⟨.none, []⟩)
 
-def proto : WaitProto where
+def proto (oneRtt : Bool) : WaitProto where
   σ := State
   Op := Op
   init := .pending none
-  step := step
+  step := step oneRtt
   pollBy := fun | .poll t w => some (t, w) | _ => none
   dropBy := fun | .dropfut t => some t | _ => none
   close := .invalid
